@@ -209,25 +209,37 @@ impl Screen {
             return; // No changes.
         }
 
+        // Every row of the new screen has to be redrawn; rows that no
+        // longer exist must not stay in the set.
+        self.dirty.clear();
         self.dirty.extend(0..lines);
 
         if lines < self.lines {
-            self.save_cursor();
-            self.cursor_position(Some(0), Some(0));
-            self.delete_lines(Some(self.lines - lines)); // Drop from the top.
-            self.restore_cursor();
+            // Drop from the top: the remaining rows (and the cursor with
+            // them) move up. This must not depend on the scrolling region.
+            let dropped = self.lines - lines;
+            let old_lines = self.lines;
+            let old = std::mem::take(&mut self.buffer);
+            for (y, line) in old {
+                if y >= dropped && y < old_lines {
+                    self.buffer.insert(y - dropped, line);
+                }
+            }
+            self.cursor.y = self.cursor.y.saturating_sub(dropped);
         }
 
         if columns < self.columns {
             for line in self.buffer.values_mut() {
-                for x in columns..self.columns {
-                    line.remove(&x);
-                }
+                line.retain(|x, _| *x < columns);
             }
         }
 
         (self.lines, self.columns) = (lines, columns);
         self.set_margins(None, None);
+
+        // Keep the cursor inside the new bounds.
+        self.cursor.x = u32::min(self.cursor.x, self.columns);
+        self.ensure_vbounds(None);
     }
 
     // Ensure the cursor is within horizontal screen bounds."""
